@@ -3,6 +3,7 @@ package props
 import (
 	"bytes"
 	"context"
+	"errors"
 	"fmt"
 	"net/http"
 	"strings"
@@ -64,19 +65,21 @@ type ChainCfg struct {
 }
 
 type ChainReq struct {
-	ID       int    `json:"id"`
-	Target   string `json:"target"` // route | post | notfound | badmethod | notacceptable | unsupported | plain | plainf | muxnotfound
-	AE       string `json:"accept_encoding,omitempty"`
-	PreCE    string `json:"writer_content_encoding,omitempty"`
-	N        int    `json:"payload"`
-	Chunks   []int  `json:"chunks,omitempty"`
-	PanicAt  string `json:"panic_at,omitempty"`
-	Flush    bool   `json:"flush,omitempty"`
-	Early    bool   `json:"early_close,omitempty"`
-	AddSvc   bool   `json:"add_service_afterwards,omitempty"`
-	WFail    int    `json:"client_gone_at_write,omitempty"`             // k>0: the client's writer fails from underlying write #k-1 on
-	BodyGzip bool   `json:"gzip_request_body,omitempty"`                // post target: the entity is sent gzip-coded and read with ReadEntity
-	AddCE    bool   `json:"handler_adds_content_encoding_br,omitempty"` // the route function declares its own payload br-coded: Header().Add, a layered coding
+	ID        int    `json:"id"`
+	Target    string `json:"target"` // route | post | notfound | badmethod | notacceptable | unsupported | plain | plainf | muxnotfound
+	AE        string `json:"accept_encoding,omitempty"`
+	PreCE     string `json:"writer_content_encoding,omitempty"`
+	N         int    `json:"payload"`
+	Chunks    []int  `json:"chunks,omitempty"`
+	PanicAt   string `json:"panic_at,omitempty"`
+	Flush     bool   `json:"flush,omitempty"`
+	Early     bool   `json:"early_close,omitempty"`
+	AddSvc    bool   `json:"add_service_afterwards,omitempty"`
+	WFail     int    `json:"client_gone_at_write,omitempty"`             // k>0: the client's writer fails from underlying write #k-1 on
+	BodyGzip  bool   `json:"gzip_request_body,omitempty"`                // post target: the entity is sent gzip-coded and read with ReadEntity
+	PanicKind int    `json:"panic_value_kind,omitempty"`                 // 0 string, 1 error, 2 pointer to a struct implementing error, 3 struct with String, 4 runtime error (nil map)
+	CancelAt  string `json:"context_cancelled_at,omitempty"`             // "start" or a point of the chain: the client went away, the request's context is done from there on
+	AddCE     bool   `json:"handler_adds_content_encoding_br,omitempty"` // the route function declares its own payload br-coded: Header().Add, a layered coding
 
 	payload []byte
 	res     [2]*ChainRes // 0: simulated run, 1: sequential twin
@@ -100,6 +103,8 @@ type ChainRes struct {
 	WrapWant  map[string]int // bytes written by actors downstream of that wrapper
 	wrapStack []string
 	Panicked  bool
+	PanicVal  interface{}
+	cancel    func()
 	BeforeP   int // body bytes accepted by the client before the panic was raised
 	AppP      int // bytes the application had written when the panic was raised
 	StatusP   int // statuses written before the panic
@@ -155,6 +160,12 @@ func y(site sim.Site) {
 // crash raises the injected panic if this is the request's crash point.
 func (e *chainEnv) crash(point string) {
 	r, res := e.res()
+	if r.CancelAt == point && res.cancel != nil {
+		res.cancel()
+		if t := sim.Cur(); t != nil {
+			t.Count("fault-context-cancelled")
+		}
+	}
 	if r.PanicAt == point && !res.Panicked {
 		res.Panicked = true
 		res.BeforeP = len(res.W.Body)
@@ -166,8 +177,42 @@ func (e *chainEnv) crash(point string) {
 				t.Count("reach:panic-after-partial-output")
 			}
 		}
-		panic(fmt.Sprintf("boom-%d@%s", r.ID, point))
+		res.PanicVal = r.panicValue()
+		if r.PanicKind == 4 {
+			var m map[string]int
+			m["x"] = 1 // a runtime error, the kind of panic real handlers raise
+		}
+		panic(res.PanicVal)
 	}
+}
+
+type chainPanicErr struct{ text string }
+
+func (p *chainPanicErr) Error() string { return p.text }
+
+type chainPanicVal struct{ text string }
+
+func (p chainPanicVal) String() string { return p.text }
+
+// panicText is what fmt.Sprint shows for the value the request panics with.
+func (r *ChainReq) panicText() string {
+	if r.PanicKind == 4 {
+		return "assignment to entry in nil map"
+	}
+	return fmt.Sprintf("boom-%d@%s", r.ID, r.PanicAt)
+}
+
+func (r *ChainReq) panicValue() interface{} {
+	text := r.panicText()
+	switch r.PanicKind {
+	case 1:
+		return errors.New(text)
+	case 2:
+		return &chainPanicErr{text}
+	case 3:
+		return chainPanicVal{text}
+	}
+	return text
 }
 
 func (e *chainEnv) appWrite(w interface{ Write([]byte) (int, error) }, p []byte) {
@@ -706,6 +751,7 @@ type chainKnobs struct {
 	warm         bool // allow a warm-up phase before all filters are registered
 	wfaults      int  // permille of requests whose client goes away (writer starts failing)
 	addCE        bool // a share of the route functions add their own Content-Encoding value
+	cancels      int  // permille of non-panicking requests whose context is cancelled at some point
 }
 
 func genFilters(tp *sim.Tape, k chainKnobs, max int) []FSpec {
@@ -852,7 +898,11 @@ func genChainReq(tp *sim.Tape, cfg *ChainCfg, k chainKnobs, id int) *ChainReq {
 		_, pts := cfg.model(r)
 		if len(pts) > 0 {
 			r.PanicAt = pts[tp.G(len(pts))]
+			r.PanicKind = tp.G(5)
 		}
+	} else if k.cancels > 0 && tp.Chance(k.cancels) {
+		_, pts := cfg.model(r)
+		r.CancelAt = append([]string{"start", "start"}, pts...)[tp.G(len(pts)+2)]
 	}
 	if tp.Chance(k.wfaults) {
 		r.WFail = 1 + tp.G(4)
@@ -972,6 +1022,17 @@ func (cr *chainRun) serve(t *sim.Task, r *ChainReq, variant int) {
 	hr := r.httpReq(t)
 	if variant == 1 {
 		hr.Header.Del("Accept-Encoding")
+	}
+	if r.CancelAt != "" {
+		ctx, cancel := context.WithCancel(hr.Context())
+		hr = hr.WithContext(ctx)
+		res.cancel = cancel
+		if r.CancelAt == "start" {
+			cancel()
+			if t != nil {
+				t.Count("fault-context-cancelled")
+			}
+		}
 	}
 	func() {
 		defer func() {
